@@ -33,6 +33,14 @@ func NewIOReader(reader io.Reader) ro.Observable[[]byte] {
 
 		for {
 			n, err := reader.Read(buf)
+			if n > 0 || err == nil {
+				// io.Reader may return the last bytes together with its error (io.EOF included):
+				// the n bytes are processed before the error is considered.
+				// Emit a copy: `buf` is reused by the next Read and the observer may keep the chunk.
+				chunk := make([]byte, n)
+				copy(chunk, buf[:n])
+				destination.NextWithContext(ctx, chunk)
+			}
 			if err != nil {
 				if err == io.EOF {
 					destination.CompleteWithContext(ctx)
@@ -41,10 +49,6 @@ func NewIOReader(reader io.Reader) ro.Observable[[]byte] {
 				}
 				break
 			}
-			// Emit a copy: `buf` is reused by the next Read and the observer may keep the chunk.
-			chunk := make([]byte, n)
-			copy(chunk, buf[:n])
-			destination.NextWithContext(ctx, chunk)
 		}
 
 		return func() {
